@@ -169,8 +169,11 @@ func c04Specs(tier string) []*h.SeqSpec {
 		depth = 3
 	}
 	var specs []*h.SeqSpec
-	for _, store := range []string{"mem", "dir"} {
+	for _, store := range []string{"mem", "dir", "memdir"} {
 		for _, start := range []string{"empty", "populated", "referrers"} {
+			if store == "memdir" && start == "referrers" && tier != "thorough" {
+				continue // the memory store over a directory: two start states in the quick tier
+			}
 			start := start
 			specs = append(specs, &h.SeqSpec{
 				Name: "c04-" + store + "-" + start,
